@@ -66,6 +66,8 @@ type xferCase struct {
 	UDPSize       int      // dgram: dns.Conn.UDPSize of the receiver (0 = unset)
 	PaceMs        int      // harness sender: pause before each envelope is written (real time; 0 = none)
 	ConsumerMs    int      // pause of the consumer between two receives from the envelope channel
+	Dial          string   // "" = Transfer.In gets a ready Conn; "tcp" = it dials the harness's loopback listener itself; "refused" = it dials an address nobody listens on
+	BadRequest    string   // "" | nokey | badalg | longlabel: a request Transfer.In cannot sign / encode (it must return an error)
 	ProducerMs    int      // library / libout sender: pause of the producer before it hands the LAST envelope to Transfer.Out's channel (real time)
 	ReadTimeoutMs int      // Transfer.ReadTimeout for paced cases (0 = the harness default of 20 s)
 	Rounds        []string // library / libout sender: requests sent over ONE connection ("xfr" | "query"); empty = one transfer
@@ -252,6 +254,24 @@ func (c xferCase) valid() string {
 		if len(c.Tsig.Secret) == 0 || c.Tsig.KeyName != strings.ToLower(c.Tsig.KeyName) {
 			return "tsig key"
 		}
+	}
+	if c.Dial != "" {
+		if (c.Dial != "tcp" && c.Dial != "refused") || c.Sender != "harness" || c.Transport != "" || c.timed() || c.Fault.Kind == "stall" || len(c.Seg) > 0 {
+			return "dial cases: harness sender on a stream, no stall / pacing / segmentation"
+		}
+	}
+	switch c.BadRequest {
+	case "":
+	case "nokey", "badalg":
+		if c.Tsig == nil || c.Sender != "harness" {
+			return "bad request: needs TSIG"
+		}
+	case "longlabel":
+		if c.Sender != "harness" {
+			return "bad request"
+		}
+	default:
+		return "bad request kind"
 	}
 	if c.Transport != "" {
 		ok := map[string]bool{"": true, "id": true, "rcode": true, "nosoa": true, "alter": true, "strip": true, "wrongkey": true, "chain": true, "stale": true}
@@ -729,6 +749,11 @@ func buildPlan(c xferCase, reqMAC []byte, now uint64) plan {
 			off += 2 + len(fr.b)
 		}
 		p.firstBad, p.strong, p.prefix, p.kind = pos, true, true, "eof"
+		if k-off < 2 {
+			// not one octet of the next message arrived (at most part of its length prefix): the
+			// transport's own error must be reported, not a decoding error of an empty message
+			p.kind = "transport"
+		}
 	}
 	return p
 }
@@ -848,6 +873,9 @@ func newTransferOn(c xferCase, conn net.Conn) *dns.Transfer {
 func runHarnessSender(c xferCase) (result, plan, error) {
 	if c.Transport == "dgram" {
 		return runDgram(c)
+	}
+	if c.Dial != "" {
+		return runDial(c)
 	}
 	cli, srv := newPipe()
 	cli.in.seg = c.Seg
@@ -1061,6 +1089,8 @@ func errKind(err error) string {
 		return "rcode"
 	case errors.Is(err, io.EOF), errors.Is(err, io.ErrUnexpectedEOF):
 		return "eof"
+	case errors.Is(err, os.ErrDeadlineExceeded):
+		return "timeout"
 	case errors.Is(err, dns.ErrAuth):
 		return "auth"
 	case errors.Is(err, dns.ErrSig), errors.Is(err, dns.ErrNoSig), errors.Is(err, dns.ErrSecret), errors.Is(err, dns.ErrKeyAlg), errors.Is(err, dns.ErrTime):
@@ -1248,6 +1278,14 @@ func checkFaulty(c xferCase, p plan, r result) error {
 		if k != "rcode" && !(c.Tsig != nil && p.rcode == dns.RcodeNotAuth && k == "auth") {
 			return pbt.Errf("fault %+v: expected a bad-rcode error, got %v", c.Fault, first)
 		}
+	case "transport":
+		want := "eof"
+		if c.Fault.Kind == "stall" {
+			want = "timeout"
+		}
+		if k != want {
+			return pbt.Errf("fault %+v: the stream ended (or stalled) before any octet of the next envelope: expected the transport's %s error, got %v", c.Fault, want, first)
+		}
 	case "eof":
 		if k == "id" || k == "soa" || k == "rcode" {
 			return pbt.Errf("fault %+v (stream ends early): reported as %v", c.Fault, first)
@@ -1297,6 +1335,13 @@ func checkXfer(c xferCase) error {
 		classes = append(classes, fmt.Sprintf("fault=%s/tsig=%v", c.Fault.Kind, c.Tsig != nil))
 	}
 
+	if c.BadRequest != "" {
+		pbt.Note(kb, true, append(classes, "bad-request="+c.BadRequest)...)
+		return checkBadRequest(c)
+	}
+	if c.Dial != "" {
+		classes = append(classes, "dial="+c.Dial)
+	}
 	switch c.Sender {
 	case "harness":
 		r, p, err := runHarnessSender(c)
@@ -1343,8 +1388,13 @@ func checkXfer(c xferCase) error {
 			}
 			return checkFaulty(c, p, r)
 		}
-		if err := checkDeadlines(p, r); err != nil {
-			return err
+		if c.Dial == "refused" {
+			return nil // runDial has classified it: an error was returned (or the port was taken)
+		}
+		if c.Dial == "" {
+			if err := checkDeadlines(p, r); err != nil {
+				return err
+			}
 		}
 		if c.Fault.Kind == "" || p.benign {
 			return checkComplete(c, r)
@@ -1686,8 +1736,22 @@ func genCase(t *rapid.T) xferCase {
 	}
 	c.Trailer = rapid.Bool().Draw(t, "trailer")
 	c.Compress = c.Sender == "harness" && !big && rapid.Bool().Draw(t, "compress")
+	if c.Sender == "harness" && c.Fault.Kind != "stall" && !big && rapid.IntRange(0, 39).Draw(t, "dial") == 11 {
+		// Transfer.In opens the connection itself (real loopback TCP), or finds nobody listening
+		c.Dial = "tcp"
+		c.Seg = nil
+		if rapid.IntRange(0, 3).Draw(t, "refused") == 0 {
+			c.Dial = "refused"
+		}
+	}
+	if c.Sender == "harness" && c.Dial == "" && rapid.IntRange(0, 59).Draw(t, "badreq") == 17 {
+		c.BadRequest = "longlabel"
+		if c.Tsig != nil {
+			c.BadRequest = rapid.SampledFrom([]string{"nokey", "badalg", "longlabel"}).Draw(t, "badkind")
+		}
+	}
 	dgOK := map[string]bool{"": true, "id": true, "rcode": true, "nosoa": true, "alter": true, "strip": true, "wrongkey": true, "chain": true, "stale": true}
-	if c.Sender == "harness" && c.Mode != "axfr" && dgOK[c.Fault.Kind] && !big && rapid.IntRange(0, 5).Draw(t, "dgram") == 0 {
+	if c.Sender == "harness" && c.Dial == "" && c.BadRequest == "" && c.Mode != "axfr" && dgOK[c.Fault.Kind] && !big && rapid.IntRange(0, 5).Draw(t, "dgram") == 0 {
 		// IXFR over UDP: the caller hands Transfer.In a datagram conn; answers of 400..4000 octets
 		c.Transport = "dgram"
 		c.UDPSize = rapid.SampledFrom([]int{0, 0, 512, 600, 1232, 4096}).Draw(t, "udpsize")
